@@ -127,12 +127,14 @@ PROPS.update({
 
 PROPS["C18"] = {
     "modules": ["TurnModel.Props.C18"], "gen": True,
-    "harnesses": ["H9"], "view": ["slowcb"], "outs": None,
-    "alarms": ["liveness-lost", "allocation-left", "harness-died"],
+    "harnesses": ["H9", "H4"], "view": ["slowcb", "trace"], "outs": None,
+    "alarms": ["liveness-lost", "allocation-left", "txn-completion-race", "harness-died"],
     "rule": "regenerated obligations: xlate re-emits the lock skeleton of every function/closure touching a sync mutex (63 units, 26 lock ids), the call/guard "
             "skeleton of the request handlers and the AddPermission ordering facts from /repo's working tree on every run; the kernel re-checks balanced/guarded "
             "by decide. Failing-input search / supporting run: H9 makes each lifecycle callback slow (1 s / 4 s virtual) and tears the allocation down during it by "
-            "each cause (expiry, Refresh 0, relay error, server close): 56 scenarios with liveness probe; distinct = (callback, cause, delay) triples",
+            "each cause (expiry, Refresh 0, relay error, server close): 56 scenarios with liveness probe; H4 (real time) lets the response arrive / the client be closed while a "
+            "retransmission's socket write is in progress and then fails: the transaction must complete exactly once (no goroutine left in WriteResult, no send on a closed channel); "
+            "distinct = (callback, cause, delay) triples",
     "trusted_base": LEAN_TB + ["translator /verif/xlate (go/packages + go/types, ~700 lines): that the emitted skeleton has the lock/guard/call structure of the Go function; "
                                "it refuses goto/labels and resolves mutexes by declared field, not by name",
                                "soundness theorem of the checker (balanced_sound, chk_no_fault) is proved once for all programs"],
@@ -172,7 +174,7 @@ PROPS["C17"] = {
 PROPS["C12"] = {
     "modules": ["TurnModel.Props.C12"], "gen": True,
     "harnesses": ["H4"], "view": ["tstart", "tresp", "tadv", "tclose", "tsize"], "outs": None,
-    "alarms": ["txn-foreign-response", "harness-died"],
+    "alarms": ["txn-foreign-response", "txn-completion-race", "harness-died"],
     "rule": "H4 drives the real turn.Client (PerformTransaction / Listen / Close) on a scripted in-memory socket under virtual time: for RTO in {1,100,200,800,1600,3000} ms a response after "
             "each of the 7 transmissions at 1 ms after it, 1 ms before and exactly at the next timer (+ duplicate), no response at all, a write error on each transmission 0..6 followed by a late "
             "response and a fresh transaction, and random histories with 1-6 concurrent transactions, interleaved / foreign / duplicate responses, Close at any point; every datagram's virtual "
